@@ -204,7 +204,7 @@ Section DtypeTags.
 End DtypeTags.
 
 (* the platform as measured (torch 2.5.1 CPU): LAPACK kernels exist for float32/float64 only *)
-Definition lapack_kernel (dt : dtype) : bool := match dt with BF16 => false | _ => true end.
+Definition lapack_kernel (dt : dtype) : bool := match dt with BF16 | F16 => false | F32 | F64 => true end.
 
 (* one observed refresh call, as recorded by the harness *)
 Record obs_call : Type := mkObsCall {
